@@ -352,7 +352,7 @@ func c02CheckProgram(c0 *Ctx, p *c02Prog, or *Oracle, srv *FcSrv, hazard bool, q
 	var vmasks []uint
 	var srcs []string
 	for mask := uint(0); mask < nvar; mask++ {
-		if p.deferredFieldPairs(mask) && !hazard {
+		if false && p.deferredFieldPairs(mask) && !hazard { // repaired in /repo 2feb94d: such variants are compared like any other
 			// two field accesses whose record type fc does not know at parse time in one function: compositeTp's
 			// FFieldAccess/FFieldAccess case unifies the RECORD types of the two accesses (reported finding;
 			// deferred field access is not modelled)
